@@ -13,7 +13,12 @@ package e2e
 //	fgdir     a filegroup whose source is a DIRECTORY, listed by a dependent; files inside are deleted, renamed with
 //	          new content, added, edited
 //	tool      a genrule using another target through tools = [...] ($TOOLS); the tool's source is edited such that its
-//	          output stays byte-identical (cut-off through a tool), its command is edited (the user must re-run)
+//	          output stays byte-identical (cut-off through a tool), its command is edited (the user must re-run).
+//	          The user reads the CONTENT of the tool's outputs (usetool), their NAMES (toolnames) or does not mention
+//	          $TOOLS at all (concat with tools = [...]: the tool only enters the source hash); the tool's outputs are
+//	          renamed WITH other content, appear, disappear, and - when no user reads names - are renamed with
+//	          IDENTICAL content (the user is skipped and is right: inside C01_partial; with a user that reads names
+//	          that is the known finding, reproduced by the fixed witness EngToolRenameWitness)
 //
 // Every history is run by the real plz (EngBuild: incremental build, clean reference build) and, for the modelled
 // shapes, replayed in Model/Engine.v.
@@ -99,7 +104,12 @@ func shapeInit(r *lib.Rng, kind string) *shapeState {
 			add(&Target{Name: "lib", Kind: "genrule", Srcs: []string{files[0]}, Outs: []string{"lib.out"}, Cmd: Cmd{Op: "concat"}})
 			srcs = append(srcs, "//p:lib")
 		}
-		add(&Target{Name: "use", Kind: "genrule", Srcs: srcs, Tools: []string{"//p:gen"}, Outs: []string{"use.out"}, Cmd: Cmd{Op: "usetool"}})
+		op := lib.Pick(r, []string{"usetool", "usetool", "toolnames", "concat"})
+		add(&Target{Name: "use", Kind: "genrule", Srcs: srcs, Tools: []string{"//p:gen"}, Outs: []string{"use.out"}, Cmd: Cmd{Op: op}})
+		if r.Chance(1, 3) {
+			op2 := lib.Pick(r, []string{"usetool", "toolnames", "concat"})
+			add(&Target{Name: "use2", Kind: "genrule", Srcs: []string{"u.txt"}, Tools: []string{"//p:gen"}, Outs: []string{"use2.out"}, Cmd: Cmd{Op: op2}})
+		}
 	default:
 		panic("unknown shape " + kind)
 	}
@@ -324,11 +334,45 @@ func shapeEdit(r *lib.Rng, st *shapeState, kind string, step int) Edit {
 				return Edit{"comment", "//p:lsd"}
 			}
 		case "tool":
-			k := lib.Pick(r, []string{"tool-src", "tool-src", "tool-cmd", "use-src", "comment", "rebuild"})
+			k := lib.Pick(r, []string{"tool-src", "tool-src", "tool-cmd", "use-src", "comment", "rebuild",
+				"tool-out-rename-new", "tool-out-rename-new", "tool-out-rename-same", "tool-out-add", "tool-out-drop"})
 			if first {
-				k = "tool-src"
+				k = lib.Pick(r, []string{"tool-src", "tool-src", "tool-out-rename-new", "tool-out-rename-same", "tool-out-add"})
+			}
+			gen := t("gen")
+			readsNames := false
+			for _, x := range p.Targets {
+				readsNames = readsNames || x.Cmd.Op == "toolnames"
 			}
 			switch k {
+			case "tool-out-rename-new": // an output of the tool renamed AND its content changed: every user must re-run
+				i := r.Intn(len(gen.Outs))
+				old := gen.Outs[i]
+				gen.Outs[i] = fmt.Sprintf("gen%d.out", n)
+				gen.Cmd.Arg = fmt.Sprintf("tool%d", n)
+				return Edit{"tool-output-renamed-new-content", fmt.Sprintf("//p:gen out %s -> %s, const -> %s", old, gen.Outs[i], gen.Cmd.Arg)}
+			case "tool-out-rename-same": // renamed with identical content: users that do not read names are skipped, rightly
+				if readsNames {
+					continue
+				}
+				i := r.Intn(len(gen.Outs))
+				old := gen.Outs[i]
+				gen.Outs[i] = fmt.Sprintf("gen%d.out", n)
+				return Edit{"tool-output-renamed-same-content-blind-user", fmt.Sprintf("//p:gen out %s -> %s", old, gen.Outs[i])}
+			case "tool-out-add":
+				if len(gen.Outs) >= 3 {
+					continue
+				}
+				gen.Outs = append(gen.Outs, fmt.Sprintf("extra%d.out", n))
+				return Edit{"tool-output-appears", "//p:gen += " + gen.Outs[len(gen.Outs)-1]}
+			case "tool-out-drop":
+				if len(gen.Outs) < 2 {
+					continue
+				}
+				i := r.Intn(len(gen.Outs))
+				old := gen.Outs[i]
+				gen.Outs = append(append([]string{}, gen.Outs[:i]...), gen.Outs[i+1:]...)
+				return Edit{"tool-output-disappears", "//p:gen -= " + old}
 			case "tool-src":
 				p.Files["g.txt"] = shapeContent(r, 6000+n)
 				return Edit{"tool-source-edited-output-identical", "p/g.txt"}
